@@ -72,7 +72,9 @@ class World:
                 raise SystemExit(3)
             return out in ("T", "MR")
         self.P = type("P", (Feedback,), {"message_template": TPL["orig:P"], "title": TITLE["orig:P"],
-                                          "condition": condition, "category": "instructor"})
+                                          "condition": condition, "category": "instructor",
+                                          # class-level fields every instance starts from (never the other way round)
+                                          "constant_fields": {"konst": "kc"}})
         self.C = type("C", (self.P,), {"message_template": TPL["orig:C"], "title": TITLE["orig:C"]})
         # N's own class body sets title = None, masking the title it would inherit from P
         self.N = type("N", (self.P,), {"message_template": TPL["orig:N"], "title": None})
